@@ -86,18 +86,20 @@ fn script_case(em: &mut Emitter, mode: u8, ctx: Ctx, before: &[Node], content: &
 /// ways (before, inside or after the member's content), swallows the error, optionally reads on, and returns
 /// success. Property: code that returns success without having consumed the whole content makes the enclosing
 /// read fail; if the enclosing read does succeed, the values that follow are the ones that follow in the input.
-fn lenient_case(em: &mut Emitter, mode: u8, outer_indef: bool, wrap2: u8, members: &[Node], j: usize, how: u8, more: usize) {
+fn lenient_case(em: &mut Emitter, mode: u8, outer_indef: bool, wrap2: u8, members: &[Node], j: usize, how: u8, more: usize, bad: u8) {
     use bcder::decode::{Constructed, IntoSource, Content};
     use bcder::Tag;
-    let body = encode_forest(members, mode, &mut None);
+    // member j may be replaced by a malformed one, so that skipping and capturing it fail as well
+    const BAD: [&[u8]; 4] = [&[0x30, 0x02, 0x02, 0x05], &[0x24, 0x04, 0x04, 0x05, 0x61, 0x62], &[0x30, 0x04, 0x30, 0x02, 0x02, 0x05], &[0x30, 0x05, 0x02, 0x01, 0x07, 0x01, 0x03]];
+    let body: Vec<u8> = members.iter().enumerate().flat_map(|(i, m)| if i == j && bad > 0 { BAD[(bad - 1) as usize].to_vec() } else { encode_forest(std::slice::from_ref(m), mode, &mut None) }).collect();
     let seq = |indef: bool, inner: &[u8]| -> Vec<u8> { let mut v = vec![0x30u8]; if indef { v.push(0x80); v.extend_from_slice(inner); v.extend_from_slice(&[0, 0]); } else { v.extend(ref_len_octets(inner.len())); v.extend_from_slice(inner); } v };
     let mut data = seq(outer_indef, &body);
     // the sibling that follows the SEQUENCE, and an optional second enclosing SEQUENCE around both
     let sib: [u8; 4] = [0xdf, 0x7f, 0x01, 0x5a];
     data.extend_from_slice(&sib);
     let data = match wrap2 { 0 => data, 1 => seq(false, &data), _ => seq(true, &data) };
-    let (cls, num, cons) = match &members[j] { Node::Prim { cls, num, .. } => (*cls, *num, false), Node::Cons { cls, num, .. } => (*cls, *num, true) };
-    em.case(302, &[num_arg(mode), num_arg(outer_indef as u8), num_arg(wrap2), bytes_arg(&data), num_arg(j), num_arg(how), num_arg(more)], || {
+    let (cls, num, cons) = if bad > 0 { (0u8, (BAD[(bad - 1) as usize][0] & 0x1f) as u32, true) } else { match &members[j] { Node::Prim { cls, num, .. } => (*cls, *num, false), Node::Cons { cls, num, .. } => (*cls, *num, true) } };
+    em.case(302, &[num_arg(mode), num_arg(outer_indef as u8), num_arg(wrap2), bytes_arg(&data), num_arg(j), num_arg(how), num_arg(more), num_arg(bad)], || {
         fn inner<S: bcder::decode::Source>(c: &mut Constructed<S>, j: usize, tag: Tag, cons: bool, how: u8, more: usize) -> Result<(bool, bool), bcder::decode::DecodeError<S::Error>> {
             // (the SEQUENCE was delivered, what follows is exactly the sibling and then the end)
             let got = c.take_opt_sequence(|seq| {
@@ -111,7 +113,11 @@ fn lenient_case(em: &mut Emitter, mode: u8, outer_indef: bool, wrap2: u8, member
                     (3, false) => seq.take_primitive_if(tag, |p| p.to_null()),                                         // a typed reader that may reject the content
                     (3, true) => seq.take_constructed_if(tag, |k| k.take_null()),
                     (4, _) => seq.take_value_if(tag, |ct| { skip_content(ct)?; Ok(()) }).and_then(|_| Err(seq.content_err("lenient"))),  // succeeds; the caller fails afterwards
-                    _ => seq.take_value_if(tag, |_| Ok(())),                                                             // returns success without consuming
+                    (5, _) => seq.take_value_if(tag, |_| Ok(())),                                                       // returns success without consuming
+                    (6, _) => seq.skip_one().map(|_| ()),                                                               // skipping, capturing, string decoding of the member
+                    (7, _) => seq.capture_one().map(|_| ()),
+                    (8, _) => bcder::OctetString::take_from(seq).map(|_| ()),
+                    _ => seq.skip_all(),
                 };
                 let _ = failed;
                 for _ in 0..more { if seq.take_opt_value(|_, ct| skip_content(ct)).is_err() { break } }
@@ -159,7 +165,8 @@ pub fn run(em: &mut Emitter, rng: &mut Rng, thorough: bool) {
         let outer_indef = match mode { 1 => true, 2 => false, _ => rng.bool() };
         let wrap2 = match mode { 1 => *rng.pick(&[0u8, 2]), 2 => rng.below(2) as u8, _ => rng.below(3) as u8 };
         let j = rng.below(members.len() as u64) as usize;
-        for how in 0..6u8 { lenient_case(em, mode, outer_indef, wrap2, &members, j, how, rng.below(3) as usize); }
+        for how in 0..6u8 { lenient_case(em, mode, outer_indef, wrap2, &members, j, how, rng.below(3) as usize, 0); }
+        if mode != 1 { let bad = 1 + rng.below(4) as u8; for how in 0..10u8 { lenient_case(em, mode, outer_indef, wrap2, &members, j, how, rng.below(3) as usize, bad); } }
     }
     let ctxs = [Ctx::Top, Ctx::Definite, Ctx::Indefinite];
     // exhaustive short scripts over a small alphabet on a 3-octet value followed by a sibling
